@@ -519,9 +519,10 @@ SPECS[AR + "metrics"] = dict(ensures=[
 # ====================================================================== metadata used by ./check
 # feature sets (besides default) a property's quick check needs
 PROPERTY_FEATURES = {
-    "C12": [("deadlock-detection",)], "C14": [("deadlock-detection",)], "C15": [("deadlock-detection",)],
-    "C13": [("test-utils",)], "C20": [("metrics",)],
-    "C04": [("deadlock-detection",)], "C06": [], "C07": [("metrics",)],
+    "C01": [("deadlock-detection",)], "C03": [("deadlock-detection",)], "C04": [("deadlock-detection",)],
+    "C07": [("metrics",)], "C10": [("deadlock-detection",)], "C11": [("metrics",)],
+    "C12": [("deadlock-detection",)], "C13": [("test-utils",)], "C14": [("deadlock-detection",)],
+    "C15": [("deadlock-detection",)], "C16": [("deadlock-detection",)], "C20": [("metrics",)],
 }
 
 # labels that live in shim/glue (preconditions of trusted primitives) -> properties they serve
@@ -549,7 +550,15 @@ EXTRA_LABELS = {
 FUNCTION_PROPERTIES = {
     "run_actor_lifecycle": "C01 C02 C04 C05 C06 C07 C08 C12 C14 C20",
     "handle_message": "C01 C03",
+    "tell": "C01 C02 C09 C13", "tell_with_timeout": "C01 C10 C13", "ask": "C01 C03 C13 C14 C15", "ask_with_timeout": "C03 C10 C13 C15",
+    "kill": "C06", "stop": "C01 C02 C07", "blocking_tell": "C17", "blocking_tell_no_timeout": "C17 C13", "blocking_ask": "C17",
+    "blocking_ask_no_timeout": "C17 C13", "tell_blocking": "C17", "ask_blocking": "C17", "ask_join": "C03",
+    "spawn": "C09 C11", "spawn_with_mailbox_capacity": "C09 C11", "set_default_mailbox_capacity": "C09",
+    "record": "C13", "has_path": "C14 C15", "drop": "C15 C12 C20", "record_message": "C20", "snapshot": "C20",
+    "upgrade": "C07 C11", "is_alive": "C11", "downgrade": "C07 C11", "clone": "C07 C11", "clone_boxed": "C16", "from": "C16",
 }
+
+FEATURE_INDEPENDENT = {"C01", "C02", "C03", "C04", "C05", "C06", "C07", "C08", "C09", "C10", "C11", "C13", "C16", "C17"}
 
 NOT_APPLICABLE = {
     "C19": "proc-macro token generation (syn/quote) is outside every installed deductive verifier; the runtime half "
